@@ -46,15 +46,21 @@ def canon(v):
 
 
 def canon_t(v, t):
-    """canonical form of a decoded value under its library type object"""
+    """canonical form of a decoded value under its library type object; a value that does not fit the type it is stored under is rendered
+    as  !ill-typed:<repr>  (and so differs from anything the model or the spec can say) instead of stopping the comparison"""
+    try: return _canon_t(v, t)
+    except Exception: return '!ill-typed:' + repr(v)[:80]
+
+
+def _canon_t(v, t):
     while isinstance(t, UserType): t = t.type
     if v is None: return 'n'
     if isinstance(t, Float32): return 'f' + f32c(v)
     if isinstance(t, Float64): return 'd' + f64c(v)
     if isinstance(t, _MathType): return 'v(' + ','.join(f32c(x) for x in v) + ')'
     if isinstance(t, Mailbox): return 'm' + socket.inet_aton(v[0]).hex() + ':%d' % v[1]
-    if isinstance(t, FixedDict): return '{' + ','.join('%s=%s' % (k, canon_t(v[k], ft)) for k, ft in t.attributes.items() if k in v) + '}'
-    if isinstance(t, Array): return '[' + ','.join(canon_t(x, t.type) for x in v) + ']'
+    if isinstance(t, FixedDict): return '{' + ','.join('%s=%s' % (k, _canon_t(v[k], ft)) for k, ft in t.attributes.items() if k in v) + '}'
+    if isinstance(t, Array): return '[' + ','.join(_canon_t(x, t.type) for x in v) + ']'
     return canon(v)
 
 
